@@ -156,43 +156,55 @@ Definition M_predefined_charset (id : N) (nGlyphs : N) : outcome (list N) :=
 
 (* ================= encoding ================= *)
 
-Fixpoint assoc_find (k : N) (l : list (N * N)) : option N :=
-  match l with
-  | [] => None
-  | (a, b) :: r => if a =? k then Some b else assoc_find k r
-  end.
-
 (* --- writer (encodeEncoding) --- *)
 
-(* first pass over the encoding vector: codes (gid -> first code), extra
-   (code, gid) in code order, maxGid *)
-Fixpoint enc_scan (code : N) (enc : list N) (codes extra : list (N * N)) (maxGid : N)
-  : list (N * N) * list (N * N) * N :=
-  match enc with
-  | [] => (codes, rev extra, maxGid)
-  | gid :: r =>
-    if gid =? 0 then enc_scan (code + 1) r codes extra maxGid
-    else
-      let c8 := code mod 256 in
-      match assoc_find gid codes with
-      | Some _ => enc_scan (code + 1) r codes ((c8, gid) :: extra) maxGid
-      | None => enc_scan (code + 1) r ((gid, c8) :: codes) extra (N.max gid maxGid)
-      end
+(* The Go code makes one pass over the encoding vector filling a map
+   codes[gid] = first code of the glyph, a list extra of the later codes of
+   already seen glyphs, and maxGid.  The model states the same three results
+   position by position. *)
+
+(* position of the first occurrence of g *)
+Fixpoint first_pos (g : N) (l : list N) : option N :=
+  match l with
+  | [] => None
+  | x :: r =>
+    if x =? g then Some 0
+    else match first_pos g r with Some p => Some (p + 1) | None => None end
   end.
+
+(* codes[gid] (c8 := uint8(code)) *)
+Definition code_of (enc : list N) (g : N) : option N :=
+  match first_pos g enc with Some p => Some (p mod 256) | None => None end.
+
+(* extra: (code, gid) for every position holding a glyph seen earlier *)
+Fixpoint extras_from (pos : N) (l : list N) (enc : list N) : list (N * N) :=
+  match l with
+  | [] => []
+  | g :: r =>
+    let rest := extras_from (pos + 1) r enc in
+    if g =? 0 then rest
+    else match first_pos g enc with
+         | Some p => if p =? pos then rest else (pos mod 256, g) :: rest
+         | None => rest
+         end
+  end.
+Definition extras (enc : list N) : list (N * N) := extras_from 0 enc enc.
+
+Definition max_gid (enc : list N) : N := fold_left N.max enc 0.
 
 (* "for gid := 1; gid <= maxGid; gid++": n iterations from gid; segments are
    collected in reverse *)
-Fixpoint seg_loop (n : nat) (gid startGid startCode : N) (codes : list (N * N))
+Fixpoint seg_loop (n : nat) (gid startGid startCode : N) (enc : list N)
     (ss : list (N * N)) : outcome (list (N * N) * N * N) :=
   match n with
   | O => Ok (ss, startGid, startCode)
   | S n' =>
-    match assoc_find gid codes with
+    match code_of enc gid with
     | None => Err                      (* encoded glyphs not contiguous *)
     | Some code =>
       if (Z.of_N (gid - startGid) =? Z.of_N code - Z.of_N startCode)%Z
-      then seg_loop n' (gid + 1) startGid startCode codes ss
-      else seg_loop n' (gid + 1) gid code codes
+      then seg_loop n' (gid + 1) startGid startCode enc ss
+      else seg_loop n' (gid + 1) gid code enc
              ((startCode, (gid - startGid - 1) mod 256) :: ss)
     end
   end.
@@ -213,10 +225,13 @@ Fixpoint enc_extra_bytes (extra : list (N * N)) (names : list Z) : outcome (list
     end
   end.
 
+Definition code_or0 (enc : list N) (g : N) : N :=
+  match code_of enc g with Some c => c | None => 0 end.
+
 Definition M_encoding_encode (enc : list N) (names : list Z) : outcome (list N) :=
-  let '(codes, extra, maxGid) := enc_scan 0 enc [] [] 0 in
-  let startCode := match assoc_find 1 codes with Some c => c | None => 0 end in
-  r <- seg_loop (N.to_nat maxGid) 1 1 startCode codes [] ;;
+  let extra := extras enc in
+  let maxGid := max_gid enc in
+  r <- seg_loop (N.to_nat maxGid) 1 1 (code_or0 enc 1) enc [] ;;
   let '(ssrev, startGid, startCode') := r in
   (* uint8(maxGid - startGid) on uint16 operands *)
   let lastLeft := ((maxGid + 65536 - startGid) mod 65536) mod 256 in
@@ -227,9 +242,7 @@ Definition M_encoding_encode (enc : list N) (names : list Z) : outcome (list N) 
   let flag := if lenN extra =? 0 then 0 else 128 in
   let main :=
     if (format0Len <=? format1Len) && (maxGid <=? 255) then
-      [flag; maxGid mod 256] ++
-      map (fun g => match assoc_find g codes with Some c => c | None => 0 end)
-          (seqN 1 (N.to_nat maxGid))
+      [flag; maxGid mod 256] ++ map (code_or0 enc) (seqN 1 (N.to_nat maxGid))
     else
       [1 + flag; lenN ss mod 256] ++ concat (map (fun s => [fst s; snd s]) ss) in
   if lenN extra =? 0 then Ok main
